@@ -589,6 +589,18 @@ def run(ctx: core.Check, cases=None):
         else:
             reqs.append(f"bin code {op} {wire_opd(dl, Lobj)} {wire_opd(dr, Robj)}")
     replies = core.model_batch("C15", reqs)
+    # the real code evaluates the construct-level call BEFORE the units (so does the model, whose free term algebra never
+    # raises): where the model answers `err Dimensionality`, ask it for the construct-level call of the same operands without
+    # units and evaluate that first — if the construct library raises there, that error is what the class shows
+    idx = [i for i, r in enumerate(replies) if r.startswith("err Dimensionality") and reqs[i].startswith("bin")]
+    if idx:
+        def nounit(d):
+            return (d[:3] + (None,) + tuple(d[4:])) if d[0] == "U" else d
+        req2 = [f"bin code {cases[i][1]} {wire_opd(nounit(cases[i][2]), built[i][0])} {wire_opd(nounit(cases[i][3]), built[i][1])}" for i in idx]
+        for i, r2 in zip(idx, core.model_batch("C15", req2)):
+            e2 = model_expect(r2, built[i][0], built[i][1], cases[i][2], cases[i][3])
+            if e2[0] == "err":
+                replies[i] = "err " + e2[1]
     # the specified table, executed as well (the theorem says the two agree; this ties the statement to the run)
     spec_replies = core.model_batch("C15", [r.replace("bin code", "bin spec") for r in reqs if r.startswith("bin")])
     it = iter(spec_replies)
